@@ -320,17 +320,35 @@ def fit_sym(x, p):
         if saved is not None:
             compress.compress_code = saved
     x.out('raised', raised is not None)
-    use_compressed = clen < n
-    size = Ite(use_compressed, clen + 8, n)
-    fits = And(size <= 0x3d00, n <= 0xffff)
-    x.check('refused exactly when the code does not fit',
-            (raised is None) == fits, info=repr(raised))
+    # the code fits when one of the two storage forms does: raw (as many
+    # bytes as characters), or the :c: form (8 header bytes + stream, code
+    # at most 65535 characters - the header has two length bytes)
+    raw_fits = n <= 0x3d00
+    comp_fits = And(clen + 8 <= 0x3d00, n <= 0xffff)
+    x.check('a cart whose code fits (raw or compressed) is written',
+            Or(raised is None, Not(Or(raw_fits, comp_fits))),
+            info=repr(raised))
+    x.check('a cart whose code fits in neither form is refused',
+            Or(raised is not None, raw_fits, comp_fits))
     if raised is not None:
         return
     x.check('code area is exactly 0x3d00 bytes', hx.length(area) == 0x3d00)
+    if hx.length(area) != 0x3d00:
+        return
     a = x.int('addr', 0, 0x3d00 - 1)
     got = area[a]
     x.out('byte', got)
+    # which form was stored is the writer's choice, the area says which
+    # (a code that itself begins with ":c:" reads as compressed whichever
+    # way it is stored - a limitation of the format, outside the claim)
+    if n >= 3:
+        x.assume(Not(And(code[0] == 58, code[1] == 99, code[2] == 58)))
+    use_compressed = And(area[0] == 58, area[1] == 99, area[2] == 58,
+                         area[3] == 0)
+    if use_compressed:
+        x.check('the compressed form is stored only when it fits', comp_fits)
+    else:
+        x.check('the raw form is stored only when it fits', raw_fits)
     if use_compressed:
         hdr = [58, 99, 58, 0, n >> 8, n & 255, 0, 0]
         exp = 0
